@@ -40,7 +40,7 @@ func (ued *UserEnteredDependencies) Remove(atomString string) bool {
 	delete(ued.amap, atomString)
 	for key, val := range ued.amap {
 		if val > i {
-			ued.amap[key] = i - 1
+			ued.amap[key] = val - 1
 		}
 	}
 	return true
